@@ -235,6 +235,42 @@ V("dual memoised with cached_property (C07)", "C07", CURVE, "    @property\n    
   extra=[(CURVE, "from abc import ABC\n", "from abc import ABC\nfrom functools import cached_property\n")])
 V("radius memoised on the instance by hand", "C06", CURVE, "        c = self.array[:-1, -1] / self.array[0, 0]\n        return np.sqrt(c.dot(c) - self.array[-1, -1] / self.array[0, 0])",
   "        c = self.array[:-1, -1] / self.array[0, 0]\n        self._radius_memo = np.sqrt(c.dot(c) - self.array[-1, -1] / self.array[0, 0])\n        return self._radius_memo", "E6.K4", "_radius_memo")
+INV_OLD = "        return type(self)(inv(self.array), copy=False)\n\n\nclass Transformation(TransformationTensor, BoundTensor):"
+INV_MEMO = ("        if self._inverse is None:\n            self._inverse = type(self)(inv(self.array), copy=False)\n        return self._inverse\n\n\n"
+            "class Transformation(TransformationTensor, BoundTensor):")
+INV_ATTR = ("    def __init__(self, *args: Tensor | npt.ArrayLike, **kwargs: Unpack[NDArrayParameters]) -> None:\n        kwargs.setdefault(\"covariant\", [0])\n        super().__init__(*args, tensor_rank=2, **kwargs)",
+            "    _inverse: TransformationTensor | None = None\n\n    def __init__(self, *args: Tensor | npt.ArrayLike, **kwargs: Unpack[NDArrayParameters]) -> None:\n        kwargs.setdefault(\"covariant\", [0])\n        super().__init__(*args, tensor_rank=2, **kwargs)")
+for _p in ("C06", "C07"):
+    V(f"inverse() memoised on the transformation, never reset ({_p})", _p, TRANS, INV_OLD, INV_MEMO, "E6.K4m", "__setitem__", extra=[(TRANS, *INV_ATTR)])
+    V(f"twin: inverse() memoised and reset by __setitem__/expand_dims ({_p})", _p, TRANS, INV_OLD, INV_MEMO, "silent", extra=[
+        (TRANS, *INV_ATTR),
+        (BASE, "            value = value.array\n        self.array[key] = value\n", "            value = value.array\n        self.array[key] = value\n        self.__dict__.pop(\"_inverse\", None)\n"),
+        (BASE, "        result.array = np.expand_dims(self.array, axis)\n", "        result.array = np.expand_dims(self.array, axis)\n        result.__dict__.pop(\"_inverse\", None)\n")])
+V("twin: Tensor.__init__ split into construction helpers that assign the index sets", "C06", BASE,
+  "                self.array = np.array(args[0].array, **kwargs)  # type: ignore[call-overload]\n                self._covariant_indices = args[0]._covariant_indices\n                self._contravariant_indices = args[0]._contravariant_indices\n",
+  "                self.array = np.array(args[0].array, **kwargs)  # type: ignore[call-overload]\n                self._init_index_types_from(args[0])\n", "silent",
+  extra=[(BASE, "    def __apply__(self, transformation: TransformationTensor) -> Self:\n        ts = self.tensor_shape",
+          "    def _init_index_types_from(self, other: Tensor) -> None:\n        self._covariant_indices = other._covariant_indices\n        self._contravariant_indices = other._contravariant_indices\n\n"
+          "    def __apply__(self, transformation: TransformationTensor) -> Self:\n        ts = self.tensor_shape")])
+ADD_OLD = "        if isinstance(other, Tensor):\n            other = other.array\n        return self._with_array(self.array + other)  # type: ignore[operator]"
+V("Tensor.__add__ no longer unwraps a Tensor operand", "C19", BASE, ADD_OLD, "        return self._with_array(self.array + other)  # type: ignore[operator]", "E2.S4", "Tensor.__add__")
+V("twin: Tensor.__add__ unwraps through a helper / conditional expression", "C19", BASE, ADD_OLD,
+  "        other = other.array if isinstance(other, Tensor) else np.asarray(other)\n        return self._with_array(self.array + other)  # type: ignore[operator]", "silent")
+V("twin: Tensor.__add__ with the branches written out", "C19", BASE, ADD_OLD,
+  "        if isinstance(other, Tensor):\n            return self._with_array(self.array + other.array)\n        else:\n            return self._with_array(self.array + other)  # type: ignore[operator]", "silent")
+V("Tensor.__add__ unwraps only collections", "C19", BASE, ADD_OLD,
+  "        if isinstance(other, TensorCollection):\n            other = other.array\n        return self._with_array(self.array + other)  # type: ignore[operator]", "E2.S4", "Tensor.__add__")
+LRU = [(TRANS, "from typing import TYPE_CHECKING", "from functools import lru_cache\nfrom typing import TYPE_CHECKING"),
+       (TRANS, "def identity(dim: int, collection_dims: tuple[int, ...] | None = None) -> TransformationTensor:\n    \"\"\"",
+        "@lru_cache(maxsize=None)\ndef identity(dim: int, collection_dims: tuple[int, ...] | None = None) -> TransformationTensor:\n    \"\"\"")]
+SCAL_OLD = "    return affine_transform(np.diag(factors))  # type: ignore[arg-type]"
+for _p in ("C08", "C12"):
+    V(f"identity() memoised, scaling() fills its diagonal in place ({_p})", _p, TRANS, SCAL_OLD,
+      "    result = identity(len(factors))\n    np.fill_diagonal(result.array[:-1, :-1], factors)\n    return result", "E1.mem", "scaling", extra=LRU)
+    V(f"identity() memoised, scaling() edits a shallow copy of it ({_p})", _p, TRANS, SCAL_OLD,
+      "    result = identity(len(factors)).copy()\n    np.fill_diagonal(result.array[:-1, :-1], factors)\n    return result", "E1.mem", "scaling", extra=LRU)
+    V(f"twin: identity() memoised, scaling() edits a deep copy ({_p})", _p, TRANS, SCAL_OLD,
+      "    result = Transformation(identity(len(factors)))\n    np.fill_diagonal(result.array[:-1, :-1], factors)\n    return result", "silent", extra=LRU)
 # ------------------------------------------------------------------------------------------------ E5 mixed arrays - found by seeding
 V("translation reads the raw offset", "C03", TRANS, "    return affine_transform(offset=offset.normalized_array[:-1])", "    return affine_transform(offset=offset.array[:-1])", "E5.object", "affine_transform")
 V("from_tangent combines raw meet results", "C03", CURVE, "        a1, a2 = Line(a, c).meet(tangent).normalized_array, Line(b, d).meet(tangent).normalized_array\n        b1, b2 = Line(a, b).meet(tangent).normalized_array, Line(c, d).meet(tangent).normalized_array",
